@@ -112,7 +112,8 @@ func c11Process(c *vk.Ctx, r *rand.Rand, round int) bool {
 	retired := map[string]KeySpec{} // keys that were configured on the retained address at some point and are not any more
 	cur := mkConf(0, true)
 	overlap := time.Duration(80+r.Intn(150)) * time.Millisecond
-	srv, err := StartServer(c.RunDir, cur, ServerOpts{Env: []string{"VERIF_POINT_newStarted=" + overlap.String()}, UDPTimeout: 2 * time.Second, ReplayHistory: []int{500, 0, 10000}[round%3]})
+	replayHistory := []int{500, 0, 10000}[round%3]
+	srv, err := StartServer(c.RunDir, cur, ServerOpts{Env: []string{"VERIF_POINT_newStarted=" + overlap.String()}, UDPTimeout: 2 * time.Second, ReplayHistory: replayHistory})
 	if err != nil {
 		c.Violation("C11/server-does-not-start", err.Error())
 		if srv != nil {
@@ -431,6 +432,7 @@ func c11Process(c *vk.Ctx, r *rand.Rand, round int) bool {
 		return metricSum(after, "shadowsocks_tcp_connections_closed", map[string]string{"status": status}) - metricSum(before, "shadowsocks_tcp_connections_closed", map[string]string{"status": status})
 	}
 	nOK, nEOF0, inside, insideOK := 0, 0, 0, 0
+	nEOF0Outside := 0
 	for _, e := range exchanges {
 		ov := overlaps(windows, e.t0, e.t1)
 		c.Eval(fmt.Sprintf("exchange|%s|overlaps-reload=%v|started-inside=%v|legacy=%v", e.outcome, ov, startedInside(windows, e.t0), legacy))
@@ -449,8 +451,7 @@ func c11Process(c *vk.Ctx, r *rand.Rand, round int) bool {
 		case "eof0":
 			nEOF0++
 			if !ov {
-				c.Violation("C11/exchange-outside-any-reload-did-not-complete", map[string]any{"outcome": e.outcome})
-				return false
+				nEOF0Outside++
 			}
 		default:
 			c.Violation("C11/exchange-broken", map[string]any{"detail": e.detail, "during_reload": ov})
@@ -465,6 +466,26 @@ func c11Process(c *vk.Ctx, r *rand.Rand, round int) bool {
 			after = m
 		}
 	}
+	// With the replay history on, a never-seen handshake is refused (empty EOF for the client) on a
+	// 32-bit checksum collision with a remembered one - the one refusal C07 allows. Expected number:
+	// exchanges x 2N / 2^32 (0.2 for 40000 exchanges against N = 10000); more than a handful is not chance.
+	collisions := int(delta("ERR_REPLAY_CLIENT"))
+	allowed := 0
+	if replayHistory > 0 {
+		allowed = 3 + int(10*float64(len(exchanges))*2*float64(replayHistory)/4294967296.0)
+	}
+	if collisions > allowed {
+		c.Violation("C11/client-with-retained-key-failed-during-reloads", map[string]any{"status": "ERR_REPLAY_CLIENT", "count": collisions, "replay_history": replayHistory, "exchanges": len(exchanges), "collisions_chance_allows": allowed})
+		return false
+	}
+	if collisions > 0 {
+		c.Count("fresh_handshakes_refused_on_a_checksum_collision", int64(collisions))
+	}
+	if nEOF0Outside > collisions {
+		c.Violation("C11/exchange-outside-any-reload-did-not-complete", map[string]any{"outcome": "eof0", "count": nEOF0Outside, "explained_by_checksum_collisions": collisions})
+		return false
+	}
+	nEOF0 -= collisions
 	if got := delta("ERR_CONNECT"); int(got) != nEOF0 {
 		all := map[string]float64{}
 		for _, st := range []string{"OK", "ERR_CONNECT", "ERR_CIPHER", "ERR_READ_ADDRESS", "ERR_RELAY_CLIENT", "ERR_RELAY_TARGET", "ERR_REPLAY_CLIENT", "ERR_REPLAY_SERVER", "ERR_ADDRESS_INVALID", "ERR_ADDRESS_PRIVATE"} {
@@ -475,7 +496,7 @@ func c11Process(c *vk.Ctx, r *rand.Rand, round int) bool {
 		c.Violation("C11/unserved-exchanges-not-explained-by-cancelled-dials", map[string]any{"clients_saw_empty_eof": nEOF0, "err_connect_delta": got, "closed_by_status": all, "exchanges": len(exchanges), "opened_delta": metricSum(after, "shadowsocks_tcp_connections_opened", nil) - metricSum(before, "shadowsocks_tcp_connections_opened", nil)})
 		return false
 	}
-	for _, st := range []string{"ERR_CIPHER", "ERR_READ_ADDRESS", "ERR_RELAY_CLIENT", "ERR_RELAY_TARGET", "ERR_REPLAY_CLIENT", "ERR_REPLAY_SERVER", "ERR_ADDRESS_INVALID", "ERR_ADDRESS_PRIVATE"} {
+	for _, st := range []string{"ERR_CIPHER", "ERR_READ_ADDRESS", "ERR_RELAY_CLIENT", "ERR_RELAY_TARGET", "ERR_REPLAY_SERVER", "ERR_ADDRESS_INVALID", "ERR_ADDRESS_PRIVATE"} {
 		if d := delta(st); d != 0 {
 			c.Violation("C11/client-with-retained-key-failed-during-reloads", map[string]any{"status": st, "count": d})
 			return false
